@@ -209,12 +209,22 @@ class HamiltonianChain(MarkovChain):
         )
 
     def finite_diff(self, t: ndarray) -> ndarray:
-        p = self.posterior(t) * self.inv_temp
+        # estimates the gradient of the log-posterior itself, like a user-supplied
+        # 'grad' - the temperature is applied once, by the leapfrog update
+        p = self.posterior(t)
         G = zeros(self.n_parameters)
         for i in range(self.n_parameters):
-            delta = zeros(self.n_parameters) + 1
-            delta[i] += 1e-5
-            G[i] = (self.posterior(t * delta) * self.inv_temp - p) / (t[i] * 1e-5)
+            # additive step, so that coordinates with a value of zero are handled
+            h = 1e-5 * (abs(t[i]) if t[i] != 0.0 else 1.0)
+            if self.bounds is not None:
+                # scale the step to the bounds and step inwards at the upper
+                # limit so the posterior is never evaluated outside the bounds
+                h = 1e-5 * self.bounds.width[i]
+                if t[i] + h > self.bounds.upper[i]:
+                    h = -h
+            t_probe = t.copy()
+            t_probe[i] += h
+            G[i] = (self.posterior(t_probe) - p) / h
         return G
 
     def get_last(self) -> ndarray:
